@@ -14,6 +14,7 @@ from typing import Tuple
 from jsonpath_rfc9535.function_extensions.filter_function import ExpressionType
 from jsonpath_rfc9535.function_extensions.filter_function import FilterFunction
 
+from .exceptions import JSONPathIndexError
 from .exceptions import JSONPathSyntaxError
 from .exceptions import JSONPathTypeError
 from .filter_expressions import BooleanLiteral
@@ -200,6 +201,15 @@ class Parser:
 
         return ()
 
+    def _parse_index(self, token: Token) -> int:
+        """Return the integer value of an index token."""
+        try:
+            return int(token.value)
+        except ValueError as err:
+            # Python refuses to convert decimal strings beyond
+            # `sys.get_int_max_str_digits()` digits.
+            raise JSONPathIndexError("index out of range", token=token) from err
+
     def parse_slice(self, stream: TokenStream) -> SliceSelector:
         """Parse a slice selector."""
         tok = stream.current
@@ -218,7 +228,7 @@ class Parser:
 
         # 1: or :
         if _maybe_index(stream.current):
-            start = int(stream.current.value)
+            start = self._parse_index(stream.current)
             stream.next_token()
 
         stream.expect(TokenType.COLON)
@@ -226,7 +236,7 @@ class Parser:
 
         # 1 or 1: or : or ?
         if _maybe_index(stream.current):
-            stop = int(stream.current.value)
+            stop = self._parse_index(stream.current)
             stream.next_token()
 
         # A step can only follow a second colon.
@@ -235,7 +245,7 @@ class Parser:
 
             # 1 or ?
             if _maybe_index(stream.current):
-                step = int(stream.current.value)
+                step = self._parse_index(stream.current)
                 stream.next_token()
 
         stream.push(stream.current)
@@ -269,7 +279,7 @@ class Parser:
                         IndexSelector(
                             env=self.env,
                             token=stream.current,
-                            index=int(stream.current.value),
+                            index=self._parse_index(stream.current),
                         )
                     )
             elif stream.current.type_ in (
